@@ -64,19 +64,23 @@ def op_line(op):
         return f"append {op[1]} " + (op[2] if len(op) > 2 else "completeSE")
     if k == "state":
         return f"state {op[1]} {op[2]}"
-    if k in ("delinst", "delnode"):
+    if k in ("delinst", "delnode", "peek"):
         return f"{k} {op[1]}"
     return k
 
 
-def exhaustive(depth, nh, ids):
-    """all op sequences of exactly `depth` enabled ops (DFS), as lists of ops"""
+def exhaustive(depth, nh, ids, peeks=False):
+    """all op sequences of exactly `depth` enabled ops (DFS), as lists of ops; with `peeks` also look-ups by index
+    below, at and beyond the count (and beyond the default capacity)"""
     out = []
 
     def rec(alive, live, seq):
         if len(seq) == depth:
             out.append(list(seq)); return
-        for op in enabled_ops(alive, live, nh, ids):
+        ops = enabled_ops(alive, live, nh, ids)
+        if peeks:
+            ops = ops + [("peek", 0), ("peek", len(live)), ("peek", 1024)]
+        for op in ops:
             a2, l2 = apply_abs(alive, live, op)
             seq.append(op); rec(a2, l2, seq); seq.pop()
     rec(set(), [], [])
@@ -98,10 +102,13 @@ def random_seq(rng, length, nh, ids, p_del=0.3):
             op = ("delinst", rng.choice(live))
         elif live and r < 0.97:
             op = ("state", rng.randrange(len(live)), rng.choice(STATES))
-        elif r < 0.985:
+        elif r < 0.982:
             op = ("clear",)
-        else:
+        elif r < 0.99:
             op = ("deleteall",)
+        else:
+            # look-up by index anywhere: below the count, at it, far above it and beyond the default capacity
+            op = ("peek", rng.choice([0, len(live), len(live) + 1, max(0, len(live) - 1), 1023, 1024, 1500, 5000]))
         if op[0] == "append" and len(op) == 2:
             op = op + ("completeSE",)
         alive, live = apply_abs(alive, live, op)
@@ -117,6 +124,10 @@ def growth_seq(n):
         seq.append(("append", h, "completeSE"))
     for i in [0, n // 2, n - 3]:
         seq.append(("delnode", i))
+    for i in [0, n - 4, n - 3, n, 2 * n + 5, 10 * n]:
+        seq.append(("peek", i))
+    seq.append(("new", n, 0)); seq.append(("append", n, "completeSE"))
+    seq.append(("deleteall",)); seq.append(("peek", 0)); seq.append(("peek", n))
     return seq
 
 
@@ -206,6 +217,12 @@ class Oracle:
         elif k == "state":
             if op[2] != "noStateSE":
                 self.state[self.live[op[1]]] = op[2]
+        elif k == "peek":
+            want = str(self.live[op[1]]) if op[1] < len(self.live) else "-"
+            got = res.split()[-1]
+            if got != want:
+                return (f"look-up by index {op[1]} (count {len(self.live)}) answers {got!r}, the statement requires "
+                        f"{want!r} (the i-th surviving instance, nothing at or above the count)")
         elif k == "clear":
             self.live = []; self.seen = set()
         elif k == "deleteall":
@@ -397,6 +414,7 @@ def run(ctx):
     depth = 5 if quick else 6
     for d in range(1, depth + 1):
         batches.append((f"exhaustive-{d}", exhaustive(d, nh, ids), 1))
+    batches.append(("exhaustive-with-lookups-4", exhaustive(4, 2, [0, 1], peeks=True), 1))
     nrand, rlen = (150, 120) if quick else (2500, 400)
     rnd = [random_seq(ctx.rng, rlen, 5, [0, 0, 1, 2, 3, 7, 1000, -4]) for _ in range(nrand)]
     batches.append(("random", rnd, 1))
